@@ -491,11 +491,14 @@ type Obligation struct {
 	Callee  string
 	Src     string
 	Reveal  []string
+	Synt    bool // decided syntactically on the SSA (frame sweep): Goal is literally true or false
 }
 
 func (o *Obligation) FullName() string {
 	return o.Func + "/" + o.Kind + "/" + o.Name
 }
+
+func (x *Exec) obligeDummy() {}
 
 func (x *Exec) oblige(st *State, kind, name string, goal *Term, pos token.Pos) {
 	if goal.S == "true" || st.dead {
